@@ -86,6 +86,8 @@ func (x *Exec) callCommon(st *State, fr *Frame, cc *ssa.CallCommon, args []Val, 
 		x.emit(st, "safety:nil-func-call", "safety", fmt.Sprintf("(not (= %s 0))", fv.Term), nil, pos)
 		key := funcValueKey(cc.Value.Type())
 		if con := x.Lib.Funcs[key]; con != nil {
+			// the function value itself is `self` in the contract of calls through a function type
+			x.selfVal = &fv
 			x.contractCall(st, fr, con, nil, cc, args, in, k)
 			return
 		}
@@ -346,6 +348,10 @@ func (x *Exec) contractCall(st *State, fr *Frame, con *FuncContract, callee *ssa
 		if i < len(args) && n != "" && n != "_" {
 			names[n] = args[i]
 		}
+	}
+	if x.selfVal != nil {
+		names["self"] = *x.selfVal
+		x.selfVal = nil
 	}
 	// structured pointer arguments must be plain references to be named in a contract
 	for n, v := range names {
